@@ -177,7 +177,8 @@ def gen_knobs(rng, prop, profile):
         "tilde_path": rng.random() < 0.06,
         "ret_style": wchoice(rng, [(75, "true"), (25, "none")]),
         "http_range": rng.random() < 0.5,  # does the simulated http server honour Range requests?
-        "err_type": wchoice(rng, [(45, "io"), (15, "conn"), (12, "timeout"), (10, "runtime"), (8, "value"), (10, "os")]),
+        "err_type": wchoice(rng, [(40, "io"), (13, "conn"), (11, "timeout"), (9, "runtime"), (7, "value"), (8, "os"),
+                                  (3, "interrupted"), (3, "blocking"), (2, "perm"), (2, "eof"), (2, "key")]),
         # POSIX TZ strings need no tz database: XXX+7 = seven hours west of UTC, XXX-5:30 = India
         "tz": wchoice(rng, [(60, "UTC"), (14, "XXX+7"), (13, "XXX-2"), (13, "XXX-5:30")]),
         "cache_dir": wchoice(rng, [(70, "cache"), (6, "products[v2]/cache"), (5, "my cache dir"), (5, "c*che?"),
